@@ -503,6 +503,7 @@ fn check_knn_bad(case: &KnnBadCase, ctx: &mut Ctx) -> Result<(), Fail> {
 pub fn property() -> Property {
     Property {
         id: "C04",
+        quick_mult: 20,
         rule: "point sets of 1..120 (quick) / 200 (thorough) points in 1..6 dimensions: continuous dyadic, {0..3}^d lattice (ties, duplicates), all identical, collinear, duplicated rows; queries in- and out-of-sample; k from 1..n plus k=1 and k=n; radii equal to realised distances, between them and beyond; Euclidean / Manhattan / Minkowski(1..4) / Hamming; both algorithms; plus the exhaustive enumeration of every multiset of <= 5 (quick) / 6 (thorough) points of the 3x3 lattice with all 9 lattice queries, all k and 7 radii. Estimators: both algorithms x both weightings x classifier / regressor with arbitrary real labels. non-trivial = n >= 8 (random search), n >= 2 (exhaustive), n >= 8 and 1 < k < n (estimators); distinct = distinct serialised case",
         assumptions: vec![
             "the reference distances are obtained by calling the library's own Distance::distance on every (query, point) pair (the metrics themselves are pinned by C17), so ties and the radius boundary are decided exactly".into(),
